@@ -116,7 +116,7 @@ func vclString(s string) string {
 	for i := 0; i < len(s); i++ {
 		c := s[i]
 		switch {
-		case c == '"' || c == '%' || c < 0x20 || c >= 0x7f:
+		case c == '"' || c == '%' || c == '\\' || c < 0x20 || c >= 0x7f:
 			fmt.Fprintf(&b, "%%%02X", c)
 		default:
 			b.WriteByte(c)
